@@ -189,7 +189,13 @@ def shard_main(a):
                     state["last"] = (json.loads(dumps(case)), f)
                     raise CaseFailed(f)
 
+        cur_path = a["scratch"].rstrip("/") + ".current.json"
+        os.makedirs(os.path.dirname(cur_path), exist_ok=True)
+
         def record(case):
+            # the case about to run, for the parent to find should this process die inside compiled library code
+            with open(cur_path, "w") as fh:
+                fh.write(dumps(case))
             ctx.evaluations += 1
             labels, nontrivial = mod.classify(case)
             ctx.label(*labels)
@@ -300,6 +306,18 @@ def shard_main(a):
 
 
 # --------------------------------------------------------------------------- parent
+CRASH_SIGNALS = {-11: "SIGSEGV", -6: "SIGABRT", -7: "SIGBUS", -8: "SIGFPE", -4: "SIGILL"}
+
+
+def _shard_entry(a, out_path):
+    import pickle
+
+    res = shard_main(a)
+    with open(out_path + ".tmp", "wb") as fh:
+        pickle.dump(res, fh)
+    os.replace(out_path + ".tmp", out_path)
+
+
 def _budget(mod, tier):
     b = dict(shards=2, examples=200, wall_cap_s=600, numba_threads=2)
     b.update(getattr(mod, "BUDGET", {}).get(tier, {}))
@@ -354,14 +372,37 @@ def run_property(prop, tier="quick", seed=1, shards=None, examples=None, replay=
     n_groups = len({j["seed_group"] for j in jobs})
     for j in jobs:
         j["n_groups"] = n_groups
-    if nshards == 1:
-        results = [shard_main(jobs[0])]
-    else:
-        import multiprocessing as mp
-        from concurrent.futures import ProcessPoolExecutor
+    import multiprocessing as mp
+    import pickle
 
-        with ProcessPoolExecutor(max_workers=min(nshards, os.cpu_count() or 1), mp_context=mp.get_context("spawn")) as ex:
-            results = list(ex.map(shard_main, jobs))
+    # one spawned process per shard (never a pool: a process that dies inside compiled library code -- an out-of-bounds
+    # write in a jitted kernel, say -- must not take the other shards' results with it)
+    os.makedirs(scratch_root, exist_ok=True)
+    mpc = mp.get_context("spawn")
+    procs = []
+    for j in jobs:
+        out = os.path.join(scratch_root, f"shard{j['shard']}.result.pkl")
+        pr = mpc.Process(target=_shard_entry, args=(j, out))
+        pr.start()
+        procs.append((j, pr, out))
+    for j, pr, out in procs:
+        pr.join()
+        if os.path.exists(out):
+            with open(out, "rb") as fh:
+                results.append(pickle.load(fh))
+            continue
+        cur = j["scratch"].rstrip("/") + ".current.json"
+        res = dict(shard=j["shard"], harness_error=None, violations=[], active_known=None, evaluations=0, nontrivial=[], classes={},
+                   oracle_evals={}, known_hits={}, excluded={}, samples=[], extra={"shards_died": 1}, wall_s=0.0)
+        if pr.exitcode in CRASH_SIGNALS and os.path.exists(cur):
+            with open(cur) as fh:
+                ccase = json.load(fh)
+            f = Failure("no_crash", f"process-exit:{pr.exitcode}", "process-died",
+                        f"the process running this case was terminated by signal {-pr.exitcode} ({CRASH_SIGNALS[pr.exitcode]}): compiled library code crashed")
+            res["violations"].append({"case": ccase, "failure": f.to_json(), "phase": "crash"})
+        else:
+            res["harness_error"] = f"shard {j['shard']} ended with exit code {pr.exitcode} without a result" + ("" if os.path.exists(cur) else " before its first case")
+        results.append(res)
     shutil.rmtree(scratch_root, ignore_errors=True)
 
     herr = [r for r in results if r.get("harness_error")]
@@ -389,7 +430,7 @@ def run_property(prop, tier="quick", seed=1, shards=None, examples=None, replay=
                 extra.setdefault(k, v)
     samples = samples[:10]
 
-    active_ids = results[0]["active_known"]
+    active_ids = next((r["active_known"] for r in results if r["active_known"] is not None), [])
     for e in known:
         if e["id"] in active_ids:
             print(f"KNOWN-FINDING: property={prop} {e['id']}: {e['what']}")
@@ -504,6 +545,16 @@ def _replay(prop, mod, path, known, repo, scratch_root):
     with open(path if os.path.isabs(path) else os.path.join(VERIF_ROOT, path)) as fh:
         doc = json.load(fh)
     case = doc.get("case", doc)
+    if doc.get("failure", {}).get("oracle") == "no_crash" and not os.environ.get("VERIF_REPLAY_INPROC"):
+        # the recorded failure is a process death: replay it in a child so that this process survives to report it
+        import subprocess
+
+        r = subprocess.run([sys.executable, "-m", "vlib.cli", prop, "--replay", path], cwd=VERIF_ROOT, env=dict(os.environ, VERIF_REPLAY_INPROC="1"))
+        if r.returncode in CRASH_SIGNALS:
+            print(f"VIOLATION property={prop} replay={path}")
+            print(f"  oracle=no_crash site=process-exit:{r.returncode} kind=process-died")
+            return 1
+        return r.returncode
     ctx = Ctx(prop, "replay", 0, 0, os.path.join(scratch_root, "replay"))
     if hasattr(mod, "setup"):
         mod.setup(ctx)
